@@ -1,7 +1,7 @@
 # type: ignore
 import logging
 
-from .util import Source, get_name_usages, np
+from .util import Source, get_name_usages, np, cycle_guard
 from .name import MultiName, ArgumentName, ImportedName
 from .scope import SourceScope, ClassScope
 from .nast import extract_scope
@@ -22,6 +22,7 @@ def use_name(name):
 
 
 def lint(project, source, filename=None, debug=False):
+    cycle_guard.request()
     source = Source(source, filename)
     try:
         source.tree
